@@ -27,7 +27,7 @@ func (u Unit) String() string { return u.Entry + "(" + strings.Join(u.Args, " | 
 type PropSpec struct {
 	ID          string
 	Solver      string // default back end
-	Units       func(tier string, seed int64) []Unit
+	Units       func(tier string, seed int64, sh *Shared) []Unit
 	MaxSteps    int64
 	MaxPaths    int // per unit
 	TimeoutMs   int // per solver query
@@ -160,7 +160,7 @@ func runCheck(prop, tier string) int {
 		return 2
 	}
 
-	units := spec.Units(tier, seed)
+	units := spec.Units(tier, seed, sh)
 	for _, u := range units {
 		if sh.entry(u.Entry) == nil {
 			fmt.Printf("INCONCLUSIVE property=%s harness entry %s missing\n", prop, u.Entry)
